@@ -81,3 +81,23 @@ Definition ecase_model_ok (c : ecase) : bool := agree_on (e_probe c) (e_out c) (
 (* oracle: what is observed equals the rules applied once, in order, to the message *)
 Definition ecase_prop_ok (c : ecase) : bool :=
   agree_on (e_probe c) (e_out c) (dispatch (e_cfg c) (e_kind c) (e_in c)).
+
+(* whole-list case: Headers.ModifyRequest / ModifyResponse on a complete rule list *)
+Record lcase := { l_rules : list rule; l_start : hmap; l_final_req : hmap; l_final_resp : hmap }.
+Definition lcase_model_ok (c : lcase) : bool :=
+  hmap_eqb (apply_rules (l_rules c) (l_start c)) (l_final_req c) &&
+  hmap_eqb (apply_rules (l_rules c) (l_start c)) (l_final_resp c).
+(* oracle: fold the pointwise documented meaning over the list *)
+Fixpoint spec_fold (rs : list rule) (h : hmap) : hmap :=
+  match rs with
+  | [] => h
+  | r :: rest =>
+      let ks := probe_keys r h [] in
+      let h' := fold_left (fun acc k => match spec_get r h k with
+                                        | Some vs => raw_set k vs acc
+                                        | None => raw_del k acc end) ks h in
+      spec_fold rest h'
+  end.
+Definition lcase_prop_ok (c : lcase) : bool :=
+  hmap_eqb (spec_fold (l_rules c) (l_start c)) (l_final_req c) &&
+  hmap_eqb (spec_fold (l_rules c) (l_start c)) (l_final_resp c).
